@@ -422,7 +422,8 @@ def build_empty(desc):
     return top, [x] + outs, {}
 
 
-PARAMS = [("int", 3), ("zero", 0), ("neg", -5), ("big", 2 ** 40), ("str", "he\"llo\\ wo\trld"), ("empty-str", ""), ("float", 1.5),
+PARAMS = [("int", 3), ("zero", 0), ("neg", -5), ("big", 2 ** 40), ("neg-big", -3000000000), ("neg-2^31", -2 ** 31), ("neg-2^31-1", -2 ** 31 - 1),
+          ("2^31-1", 2 ** 31 - 1), ("2^31", 2 ** 31), ("neg-huge", -(2 ** 70) - 3), ("str", "he\"llo\\ wo\trld"), ("empty-str", ""), ("float", 1.5),
           ("const-u", ("const", 5, 4, False)), ("const-s", ("const", -1, 3, True)), ("const-0", ("const", 0, 0, False))]
 
 
